@@ -17,6 +17,7 @@ import (
 	"io"
 	"net"
 	"sort"
+	"strings"
 	"sync"
 	"testing"
 	"time"
@@ -35,12 +36,22 @@ import (
 
 // ---- environment owned by the harness (outside every bubble)
 
+// proxy modes: what happens to the connections of the redis client
+const (
+	c04Ok      = iota // forwarded
+	c04Down           // accepted and closed at once (EOF), existing ones closed
+	c04Reset          // accepted and reset (RST), existing ones reset
+	c04Partial        // requests forwarded, one byte of the reply relayed, then closed
+	c04Hole           // accepted, read, never answered (black hole)
+)
+
 type c04Proxy struct {
-	ln      net.Listener
-	backend string
-	mu      sync.Mutex
-	down    bool
-	conns   map[net.Conn]struct{}
+	ln       net.Listener
+	backend  string
+	mu       sync.Mutex
+	mode     int
+	dropNext int // flaky: the next n accepted connections are closed at once, then back to normal
+	conns    map[net.Conn]struct{}
 }
 
 func c04NewProxy(backend string) *c04Proxy {
@@ -55,6 +66,13 @@ func c04NewProxy(backend string) *c04Proxy {
 
 func (p *c04Proxy) addr() string { return p.ln.Addr().String() }
 
+func c04Rst(c net.Conn) {
+	if tc, ok := c.(*net.TCPConn); ok {
+		tc.SetLinger(0)
+	}
+	c.Close()
+}
+
 func (p *c04Proxy) loop() {
 	for {
 		c, err := p.ln.Accept()
@@ -62,9 +80,46 @@ func (p *c04Proxy) loop() {
 			return
 		}
 		p.mu.Lock()
-		if p.down {
+		mode := p.mode
+		if mode == c04Ok && p.dropNext > 0 {
+			p.dropNext--
+			mode = c04Down
+		}
+		switch mode {
+		case c04Down:
 			p.mu.Unlock()
 			c.Close()
+			continue
+		case c04Reset:
+			p.mu.Unlock()
+			c04Rst(c)
+			continue
+		case c04Hole:
+			p.conns[c] = struct{}{}
+			p.mu.Unlock()
+			go func() {
+				io.Copy(io.Discard, c)
+				c.Close()
+				p.mu.Lock()
+				delete(p.conns, c)
+				p.mu.Unlock()
+			}()
+			continue
+		}
+		if mode == c04Partial {
+			// wait for the request, answer with the first byte of a reply, hang up
+			p.conns[c] = struct{}{}
+			p.mu.Unlock()
+			go func() {
+				buf := make([]byte, 512)
+				if n, _ := c.Read(buf); n > 0 {
+					c.Write([]byte("$"))
+				}
+				c.Close()
+				p.mu.Lock()
+				delete(p.conns, c)
+				p.mu.Unlock()
+			}()
 			continue
 		}
 		b, err := net.Dial("tcp", p.backend)
@@ -76,32 +131,47 @@ func (p *c04Proxy) loop() {
 		p.conns[c] = struct{}{}
 		p.conns[b] = struct{}{}
 		p.mu.Unlock()
-		pipe := func(dst, src net.Conn) {
-			io.Copy(dst, src)
-			dst.Close()
-			src.Close()
+		done := func(x, y net.Conn) {
+			x.Close()
+			y.Close()
 			p.mu.Lock()
-			delete(p.conns, dst)
-			delete(p.conns, src)
+			delete(p.conns, x)
+			delete(p.conns, y)
 			p.mu.Unlock()
 		}
-		go pipe(b, c)
-		go pipe(c, b)
+		go func() { io.Copy(b, c); done(b, c) }()
+		go func() { io.Copy(c, b); done(b, c) }()
 	}
 }
 
-func (p *c04Proxy) setDown(d bool) {
+// setMode switches the proxy; leaving c04Ok (or asking for it again after a fault)
+// also ends every connection that is open.
+func (p *c04Proxy) setMode(m int, dropNext int) {
 	p.mu.Lock()
-	p.down = d
+	old := p.mode
+	p.mode = m
+	p.dropNext = dropNext
 	var cs []net.Conn
-	if d {
+	if m != c04Ok || old != c04Ok || dropNext > 0 {
 		for c := range p.conns {
 			cs = append(cs, c)
 		}
 	}
 	p.mu.Unlock()
 	for _, c := range cs {
-		c.Close()
+		if m == c04Reset {
+			c04Rst(c)
+		} else {
+			c.Close()
+		}
+	}
+}
+
+func (p *c04Proxy) setDown(d bool) {
+	if d {
+		p.setMode(c04Down, 0)
+	} else {
+		p.setMode(c04Ok, 0)
 	}
 }
 
@@ -164,18 +234,38 @@ type c04KV struct {
 }
 
 type c04RpcOp struct {
-	K   string `json:"k"`             // call fault-err fault-down heal sleep set del
-	App string `json:"app,omitempty"` // call/set/del
-	Tok string `json:"tok,omitempty"` // call: "=" means the token currently stored for App
-	MD  string `json:"md,omitempty"`  // full extra nomd emptymd noapp notoken emptyapp emptytoken
-	Via string `json:"via,omitempty"` // unary stream direct
-	Sec int    `json:"sec,omitempty"` // sleep
+	K    string `json:"k"`              // call fault-err fault-down fault-reset fault-partial fault-hole flaky heal sleep set del churn
+	App  string `json:"app,omitempty"`  // call/set/del
+	Tok  string `json:"tok,omitempty"`  // call: "=" means the token currently stored for App
+	MD   string `json:"md,omitempty"`   // full extra nomd emptymd noapp notoken emptyapp emptytoken
+	Via  string `json:"via,omitempty"`  // unary stream direct
+	Sec  int    `json:"sec,omitempty"`  // sleep
+	Inst int    `json:"inst,omitempty"` // which authenticator (0: Strict, 1: the opposite mode on another hash key)
+	Meth int    `json:"meth,omitempty"` // index into c04Methods
+	N    int    `json:"n,omitempty"`    // churn: number of distinct stored apps authenticated once each
 }
 
 type c04RpcCase struct {
 	Strict bool       `json:"strict"`
 	Store  []c04KV    `json:"store"`
+	Store2 []c04KV    `json:"store2,omitempty"` // contents of the second authenticator's hash
 	Ops    []c04RpcOp `json:"ops"`
+}
+
+const c04Key2 = "c04-apps-second"
+
+var c04Methods = []string{"/c04.S/M", "/grpc.health.v1.Health/Check", "/grpc.health.v1.Health/Watch",
+	"/grpc.reflection.v1alpha.ServerReflection/ServerReflectionInfo", "", "/", "/c04.S/Login", "/%s/%d"}
+
+// c04Expand turns the placeholders of the generator into the real strings.
+func c04Expand(x string) string {
+	switch x {
+	case "LONG":
+		return strings.Repeat("L", 10000)
+	case "LONGTOK":
+		return strings.Repeat("T", 65537)
+	}
+	return x
 }
 
 type c04Stream struct{ ctx context.Context }
@@ -258,100 +348,170 @@ func c04RpcInterp(t *testing.T, c c04RpcCase) (v kit.Verdict) {
 	nontrivial := false
 	excluded := false
 	healthy := true
+	keys := [2]string{c04Key, c04Key2}
+	stricts := [2]bool{c.Strict, !c.Strict}
 	c04Outside(func() {
-		c04Px.setDown(false)
+		c04Px.setMode(c04Ok, 0)
 		c04Mini.SetError("")
 		c04Mini.FlushAll()
 		for _, kv := range c.Store {
-			c04Mini.HSet(c04Key, kv.App, kv.Tok)
+			c04Mini.HSet(keys[0], c04Expand(kv.App), c04Expand(kv.Tok))
 		}
-		healthy = c04Drain()
+		for _, kv := range c.Store2 {
+			c04Mini.HSet(keys[1], c04Expand(kv.App), c04Expand(kv.Tok))
+		}
+		// every fault costs the client dozens of short-lived loopback connections; when the
+		// machine runs out of ephemeral ports for a moment, wait instead of giving up
+		for attempt := 0; attempt < 4; attempt++ {
+			if healthy = c04Drain(); healthy {
+				break
+			}
+			time.Sleep(5 * time.Second)
+		}
 	})
 	if !healthy {
 		return kit.Verdict{Excluded: true, Classes: []string{"harness:store-not-ready"}}
 	}
 	defer c04Outside(func() {
-		c04Px.setDown(false)
+		c04Px.setMode(c04Ok, 0)
 		c04Mini.SetError("")
 	})
 	res := kit.Bubble(t, func() {
+		// the model's store is keyed "<instance>/<app>"; the two authenticators are independent
+		wk := func(inst int, app string) string { return fmt.Sprintf("%d/%s", inst, app) }
 		store := map[string]string{}
 		for _, kv := range c.Store {
-			store[kv.App] = kv.Tok
+			store[wk(0, kv.App)] = kv.Tok
 		}
-		a, err := auth.NewAuthenticator(redis.New(c04Px.addr()), c04Key, c.Strict)
-		if err != nil {
-			fail = "NewAuthenticator: " + err.Error()
-			return
+		for _, kv := range c.Store2 {
+			store[wk(1, kv.App)] = kv.Tok
 		}
-		unary := UnaryAuthorizeInterceptor(a)
-		stream := StreamAuthorizeInterceptor(a)
+		shared := redis.New(c04Px.addr()) // one store object shared by both authenticators
+		var auths [2]*auth.Authenticator
+		var unary [2]grpc.UnaryServerInterceptor
+		var stream [2]grpc.StreamServerInterceptor
+		for i := 0; i < 2; i++ {
+			a, err := auth.NewAuthenticator(shared, keys[i], stricts[i])
+			if err != nil {
+				fail = "NewAuthenticator: " + err.Error()
+				return
+			}
+			auths[i] = a
+			unary[i] = UnaryAuthorizeInterceptor(a)
+			stream[i] = StreamAuthorizeInterceptor(a)
+		}
 		worlds := []c04World{{}}
-		fault := false
+		faultKind := "" // "", err, down, reset, partial, hole, flaky
 		for i, op := range c.Ops {
+			inst := op.Inst & 1
+			setFault := func(kind string, f func()) {
+				c04Outside(f)
+				faultKind = kind
+				classes["fault-"+kind] = true
+			}
 			switch op.K {
 			case "sleep":
 				time.Sleep(time.Duration(op.Sec) * time.Second)
+				if op.Sec >= 3600 {
+					classes["sleep>=1h"] = true
+				}
 			case "fault-err":
-				c04Outside(func() { c04Mini.SetError("ERR c04 injected failure") })
-				fault = true
-				classes["fault-err"] = true
+				setFault("err", func() { c04Mini.SetError("ERR c04 injected failure") })
 			case "fault-down":
-				c04Outside(func() { c04Px.setDown(true) })
-				fault = true
-				classes["fault-down"] = true
+				setFault("down", func() { c04Px.setMode(c04Down, 0) })
+			case "fault-reset":
+				setFault("reset", func() { c04Px.setMode(c04Reset, 0) })
+			case "fault-partial":
+				setFault("partial", func() { c04Px.setMode(c04Partial, 0) })
+			case "fault-hole":
+				setFault("hole", func() { c04Px.setMode(c04Hole, 0) })
+			case "flaky":
+				// the pooled connections die and the next new connection is dropped once: a
+				// fault on one attempt only, the client library may or may not hide it
+				setFault("flaky", func() { c04Px.setMode(c04Ok, 1) })
 			case "heal":
-				ok := true
 				c04Outside(func() {
-					c04Px.setDown(false)
+					c04Px.setMode(c04Ok, 0)
 					c04Mini.SetError("")
 				})
-				ok = c04Drain()
-				if !ok {
+				if !c04Drain() {
 					excluded = true
 					classes["harness:store-not-healed"] = true
 					return
 				}
-				fault = false
+				if faultKind != "" {
+					classes["healed-after-"+faultKind] = true
+				}
+				faultKind = ""
 				// let the 10 s window of the store's circuit breaker forget the outage
 				time.Sleep(15 * time.Second)
 			case "set":
-				c04Outside(func() { c04Mini.HSet(c04Key, op.App, op.Tok) })
-				store[op.App] = op.Tok
+				c04Outside(func() { c04Mini.HSet(keys[inst], c04Expand(op.App), c04Expand(op.Tok)) })
+				store[wk(inst, op.App)] = op.Tok
 				classes["store-changed"] = true
 			case "del":
-				c04Outside(func() { c04Mini.HDel(c04Key, op.App) })
-				delete(store, op.App)
+				c04Outside(func() { c04Mini.HDel(keys[inst], c04Expand(op.App)) })
+				delete(store, wk(inst, op.App))
 				classes["store-changed"] = true
+			case "churn":
+				// a long-lived authenticator: N distinct stored apps, each authenticated once
+				if faultKind != "" {
+					continue
+				}
+				c04Outside(func() {
+					for j := 0; j < op.N; j++ {
+						c04Mini.HSet(keys[inst], fmt.Sprintf("churn-%d-%d", i, j), "ct")
+					}
+				})
+				for j := 0; j < op.N; j++ {
+					ctx := metadata.NewIncomingContext(context.Background(), metadata.Pairs("app", fmt.Sprintf("churn-%d-%d", i, j), "token", "ct"))
+					if err := auths[inst].Authenticate(ctx); err != nil {
+						fail = fmt.Sprintf("op %d churn: stored app %d of %d with its token rejected on a healthy store: %v", i, j, op.N, err)
+						return
+					}
+				}
+				classes["churn"] = true
 			case "call":
+				key := wk(inst, op.App)
 				tok := op.Tok
 				if tok == "=" {
-					if s, ok := store[op.App]; ok {
+					if s, ok := store[key]; ok {
 						tok = s
 					} else {
 						tok = "t-any"
 					}
 				}
+				appW, tokW := c04Expand(op.App), c04Expand(tok)
+				if appW != op.App || strings.ContainsAny(op.App, "%*$ ") {
+					classes["alphabet:app"] = true
+				}
+				if inst == 1 {
+					classes["second-authenticator"] = true
+				}
 				ctx := context.Background()
 				wellFormed := false
 				switch op.MD {
 				case "full":
-					ctx = metadata.NewIncomingContext(ctx, metadata.Pairs("app", op.App, "token", tok))
+					ctx = metadata.NewIncomingContext(ctx, metadata.Pairs("app", appW, "token", tokW))
 					wellFormed = true
 				case "extra":
-					ctx = metadata.NewIncomingContext(ctx, metadata.Pairs("user-agent", "c04", "app", op.App, "token", tok, "x-trace", "1"))
+					ctx = metadata.NewIncomingContext(ctx, metadata.Pairs("user-agent", "c04", "app", appW, "token", tokW, "x-trace", "1"))
 					wellFormed = true
 				case "nomd":
 				case "emptymd":
 					ctx = metadata.NewIncomingContext(ctx, metadata.MD{})
 				case "noapp":
-					ctx = metadata.NewIncomingContext(ctx, metadata.Pairs("token", tok))
+					ctx = metadata.NewIncomingContext(ctx, metadata.Pairs("token", tokW))
 				case "notoken":
-					ctx = metadata.NewIncomingContext(ctx, metadata.Pairs("app", op.App))
+					ctx = metadata.NewIncomingContext(ctx, metadata.Pairs("app", appW))
 				case "emptyapp":
-					ctx = metadata.NewIncomingContext(ctx, metadata.Pairs("app", "", "token", tok))
+					ctx = metadata.NewIncomingContext(ctx, metadata.Pairs("app", "", "token", tokW))
 				case "emptytoken":
-					ctx = metadata.NewIncomingContext(ctx, metadata.Pairs("app", op.App, "token", ""))
+					ctx = metadata.NewIncomingContext(ctx, metadata.Pairs("app", appW, "token", ""))
+				}
+				method := c04Methods[op.Meth%len(c04Methods)]
+				if op.Meth%len(c04Methods) != 0 {
+					classes["method-name-varied"] = true
 				}
 				ran := 0
 				var callErr error
@@ -359,7 +519,7 @@ func c04RpcInterp(t *testing.T, c c04RpcCase) (v kit.Verdict) {
 				switch op.Via {
 				case "unary":
 					var resp interface{}
-					resp, callErr = unary(ctx, "req", &grpc.UnaryServerInfo{FullMethod: "/c04.S/M"}, func(ctx context.Context, req interface{}) (interface{}, error) {
+					resp, callErr = unary[inst](ctx, "req", &grpc.UnaryServerInfo{FullMethod: method}, func(ctx context.Context, req interface{}) (interface{}, error) {
 						ran++
 						return "resp", nil
 					})
@@ -368,19 +528,20 @@ func c04RpcInterp(t *testing.T, c c04RpcCase) (v kit.Verdict) {
 						return
 					}
 				case "stream":
-					callErr = stream(nil, c04Stream{ctx: ctx}, &grpc.StreamServerInfo{FullMethod: "/c04.S/M"}, func(srv interface{}, ss grpc.ServerStream) error {
+					callErr = stream[inst](nil, c04Stream{ctx: ctx}, &grpc.StreamServerInfo{FullMethod: method}, func(srv interface{}, ss grpc.ServerStream) error {
 						ran++
 						return nil
 					})
 				default:
-					callErr = a.Authenticate(ctx)
+					callErr = auths[inst].Authenticate(ctx)
 					if callErr == nil {
 						ran = 1
 					}
 				}
 				t1 := time.Now()
 				admitted := callErr == nil
-				what := fmt.Sprintf("op %d %+v (token sent %q, strict=%v, fault=%v, store=%v)", i, op, tok, c.Strict, fault, store)
+				shownTok := tok
+				what := fmt.Sprintf("op %d %+v (token sent %q, instance %d strict=%v, fault=%q, store=%v)", i, op, shownTok, inst, stricts[inst], faultKind, store)
 				if admitted != (ran == 1) {
 					fail = fmt.Sprintf("%s: error=%v but handler ran %d times", what, callErr, ran)
 					return
@@ -405,23 +566,34 @@ func c04RpcInterp(t *testing.T, c c04RpcCase) (v kit.Verdict) {
 				seenW := map[string]bool{}
 				var next []c04World
 				var allowed []string
+				var faults []bool
+				switch faultKind {
+				case "":
+					faults = []bool{false}
+				case "flaky":
+					faults = []bool{false, true} // one failed attempt: hidden by a retry, or surfaced
+				default:
+					faults = []bool{true}
+				}
 				for _, w := range worlds {
-					for _, n := range c04Step(w, op.App, tok, store, fault, c.Strict, t0, t1) {
-						allowed = append(allowed, fmt.Sprintf("%s:admit=%v", n.via, n.admit))
-						if n.admit != admitted {
-							continue
-						}
-						k := n.w.key()
-						if !seenW[k] {
-							seenW[k] = true
-							next = append(next, n.w)
-						}
-						classes["via:"+n.via] = true
-						if n.via == "cache" && fault {
-							if e, has := w[op.App]; has && t1.Before(e.from.Add(c04SurelyCached)) {
-								if cur, ok := store[op.App]; ok && cur == e.val {
-									nontrivial = true
-									classes["cached-app-during-fault"] = true
+					for _, fl := range faults {
+						for _, n := range c04Step(w, key, tok, store, fl, stricts[inst], t0, t1) {
+							allowed = append(allowed, fmt.Sprintf("%s:admit=%v", n.via, n.admit))
+							if n.admit != admitted {
+								continue
+							}
+							k := n.w.key()
+							if !seenW[k] {
+								seenW[k] = true
+								next = append(next, n.w)
+							}
+							classes["via:"+n.via] = true
+							if n.via == "cache" && fl && faultKind != "flaky" {
+								if e, has := w[key]; has && t1.Before(e.from.Add(c04SurelyCached)) {
+									if cur, ok := store[key]; ok && cur == e.val {
+										nontrivial = true
+										classes["cached-app-during-fault"] = true
+									}
 								}
 							}
 						}
@@ -440,13 +612,13 @@ func c04RpcInterp(t *testing.T, c c04RpcCase) (v kit.Verdict) {
 				} else {
 					classes["rejected"] = true
 				}
-				_, known := store[op.App]
+				_, known := store[key]
 				switch {
-				case !known && fault:
+				case !known && faultKind != "":
 					classes["unknown-app+fault"] = true
 				case !known:
 					classes["unknown-app"] = true
-				case tok == store[op.App]:
+				case tok == store[key]:
 					classes["token-right"] = true
 				default:
 					classes["token-wrong"] = true
@@ -473,16 +645,30 @@ func c04RpcInterp(t *testing.T, c c04RpcCase) (v kit.Verdict) {
 // ---- generator
 
 var (
-	c04Apps   = []string{"a1", "a2", "a3"}
-	c04Tokens = []string{"t1", "t2", "t3", "long-token-0123456789abcdef0123456789abcdef"}
+	c04Apps   = []string{"a1", "a2", "a3", "a%s%d%!v", "a b*?[x]{y}", "$(a);`b`|&", "LONG"}
+	c04Tokens = []string{"t1", "t2", "t3", "long-token-0123456789abcdef0123456789abcdef", "t%v%!(NOVERB)", "LONGTOK"}
 )
+
+func c04RpcGenStore(rt *rapid.T, label string) []c04KV {
+	var out []c04KV
+	for i, a := range c04Apps {
+		p := 7
+		if i >= 3 {
+			p = 3
+		}
+		if rapid.IntRange(0, 9).Draw(rt, label+"has-"+a) < p {
+			out = append(out, c04KV{App: a, Tok: rapid.SampledFrom(c04Tokens).Draw(rt, label+"tok-"+a)})
+		}
+	}
+	return out
+}
 
 func c04RpcGen(rt *rapid.T) c04RpcCase {
 	c := c04RpcCase{Strict: rapid.Bool().Draw(rt, "strict")}
-	for _, a := range c04Apps {
-		if rapid.IntRange(0, 9).Draw(rt, "has-"+a) < 7 {
-			c.Store = append(c.Store, c04KV{App: a, Tok: rapid.SampledFrom(c04Tokens).Draw(rt, "tok-"+a)})
-		}
+	c.Store = c04RpcGenStore(rt, "")
+	two := rapid.IntRange(0, 3).Draw(rt, "two-authenticators") == 2
+	if two {
+		c.Store2 = c04RpcGenStore(rt, "second-")
 	}
 	n := rapid.IntRange(1, 24).Draw(rt, "nops")
 	fault := false
@@ -494,8 +680,7 @@ func c04RpcGen(rt *rapid.T) c04RpcCase {
 	}
 	clock := 0
 	warmAt := map[string]int{}
-	var warm func() []string
-	warm = func() []string {
+	warm := func() []string {
 		var out []string
 		for _, a := range c04Apps {
 			if at, ok := warmAt[a]; ok && clock-at < 270 {
@@ -504,57 +689,110 @@ func c04RpcGen(rt *rapid.T) c04RpcCase {
 		}
 		return out
 	}
+	churned := false
+	// A black hole (accepted, never answered) is NOT generated: every attempt costs the
+	// client's real 3 s read time-out, and in a trial (thorough tier, 4 cases) the shared
+	// go-redis pool did not recover for the following cases of the process (1901 cases
+	// excluded as store-not-ready). The proxy mode is kept for manual experiments.
+	hole := false
 	for i := 0; i < n; i++ {
 		kinds := []string{"call", "call", "call", "call", "call", "call", "sleep", "sleep"}
 		if fault {
 			kinds = append(kinds, "call", "call", "heal")
 		} else {
-			kinds = append(kinds, "fault-err", "fault-down", "set", "del")
+			kinds = append(kinds, "fault-err", "fault-down", "fault-reset", "fault-partial", "flaky", "set", "del")
 			if len(warm()) > 0 {
-				kinds = append(kinds, "fault-err", "fault-down")
+				kinds = append(kinds, "fault-err", "fault-down", "fault-reset", "fault-partial")
+			}
+			if !churned {
+				kinds = append(kinds, "churn")
 			}
 		}
 		k := rapid.SampledFrom(kinds).Draw(rt, "kind")
+		if k == "churn" && rapid.IntRange(0, 3).Draw(rt, "churn-really") != 2 {
+			k = "call" // keep churns rare: they cost thousands of store round trips
+		}
+		if hole && !fault && i == n/2 {
+			k = "fault-hole"
+		}
 		op := c04RpcOp{K: k}
+		if two {
+			op.Inst = rapid.IntRange(0, 1).Draw(rt, "inst")
+		}
 		switch k {
 		case "call":
-			apps := []string{"a1", "a1", "a2", "a3", "ghost"}
+			apps := []string{"a1", "a1", "a2", "a3", "ghost", "a%s%d%!v", "a b*?[x]{y}", "$(a);`b`|&", "LONG"}
 			if w := warm(); fault && len(w) > 0 {
 				apps = append(apps, w...)
 				apps = append(apps, w...)
 				apps = append(apps, w...)
 			}
 			op.App = rapid.SampledFrom(apps).Draw(rt, "app")
-			op.Tok = rapid.SampledFrom([]string{"=", "=", "=", "t1", "t2", "nope"}).Draw(rt, "tok")
+			op.Tok = rapid.SampledFrom([]string{"=", "=", "=", "t1", "t2", "nope", "t%v%!(NOVERB)", "LONGTOK"}).Draw(rt, "tok")
 			op.MD = rapid.SampledFrom([]string{"full", "full", "full", "full", "full", "full", "full", "full", "extra", "nomd", "emptymd", "noapp", "notoken", "emptyapp", "emptytoken"}).Draw(rt, "md")
 			op.Via = rapid.SampledFrom([]string{"unary", "stream", "direct"}).Draw(rt, "via")
-			if !fault && inStore[op.App] && (op.MD == "full" || op.MD == "extra") {
+			op.Meth = rapid.SampledFrom([]int{0, 0, 0, 1, 2, 3, 4, 5, 6, 7}).Draw(rt, "method")
+			if !fault && op.Inst == 0 && inStore[op.App] && (op.MD == "full" || op.MD == "extra") {
 				if _, ok := warmAt[op.App]; !ok || clock-warmAt[op.App] >= 270 {
 					warmAt[op.App] = clock
 				}
 			}
 		case "sleep":
 			op.Sec = rapid.SampledFrom([]int{1, 1, 30, 30, 100, 250, 270, 300, 330, 400}).Draw(rt, "sec")
+			if rapid.IntRange(0, 9).Draw(rt, "hour?") == 6 {
+				op.Sec = 3600
+			}
+			if rapid.IntRange(0, 39).Draw(rt, "day?") == 23 {
+				op.Sec = 86400
+			}
 			clock += op.Sec
 		case "set":
 			op.App = rapid.SampledFrom(c04Apps).Draw(rt, "app")
 			op.Tok = rapid.SampledFrom(c04Tokens).Draw(rt, "tok")
-			inStore[op.App] = true
+			if op.Inst == 0 {
+				inStore[op.App] = true
+			}
 		case "del":
 			op.App = rapid.SampledFrom(c04Apps).Draw(rt, "app")
-			delete(inStore, op.App)
-		case "fault-err", "fault-down":
+			if op.Inst == 0 {
+				delete(inStore, op.App)
+			}
+		case "churn":
+			op.N = rapid.SampledFrom([]int{200, 1100, 1500}).Draw(rt, "n")
+			churned = true
+		case "fault-err", "fault-down", "fault-reset", "fault-partial", "fault-hole", "flaky":
 			fault = true
 		case "heal":
 			fault = false
 			clock += 15
 		}
+		if k == "churn" {
+			// something pending across the churn: an app cached just before it, probed during an
+			// outage right after it
+			probe := "a1"
+			if w := warm(); len(w) > 0 {
+				probe = w[0]
+			}
+			pre := c04RpcOp{K: "call", App: probe, Tok: "=", MD: "full", Via: "direct", Inst: op.Inst}
+			c.Ops = append(c.Ops, pre, op,
+				c04RpcOp{K: "fault-err", Inst: op.Inst},
+				c04RpcOp{K: "call", App: probe, Tok: rapid.SampledFrom([]string{"=", "nope"}).Draw(rt, "probe-tok"), MD: "full", Via: "unary", Inst: op.Inst},
+				c04RpcOp{K: "heal"})
+			i += 4
+			continue
+		}
 		c.Ops = append(c.Ops, op)
+		if k == "fault-hole" {
+			// exactly one call into the hole, then heal
+			c.Ops = append(c.Ops, c04RpcOp{K: "call", App: "a1", Tok: "=", MD: "full", Via: "unary"}, c04RpcOp{K: "heal"})
+			fault = false
+			i += 2
+		}
 	}
 	return c
 }
 
 func TestVerif_C04_rpc(t *testing.T) {
-	kit.Run(t, "C04", "rpc-auth", kit.Opts{Quick: 500, Thorough: 16000}, c04RpcGen,
+	kit.Run(t, "C04", "rpc-auth", kit.Opts{Quick: 400, Thorough: 4800}, c04RpcGen,
 		func(c c04RpcCase) kit.Verdict { return c04RpcInterp(t, c) })
 }
